@@ -71,6 +71,7 @@ impl TransportConfig {
     #[verifier::external_body] pub fn crypto_buffer_size(&mut self, v: usize) -> (r: ()) ensures final(self).bidi == old(self).bidi, final(self).uni == old(self).uni, final(self).idle_ms == old(self).idle_ms, final(self).keep_alive_ms == old(self).keep_alive_ms { unimplemented!() }
 }
 pub open spec fn cap_u64(n: u64) -> nat { if n as nat <= varint_max() { n as nat } else { varint_max() } }
+pub open spec fn opt_nat(o: Option<u64>) -> Option<nat> { match o { Some(n) => Some(n as nat), None => None } }
 pub open spec fn capped(o: Option<u64>) -> Option<nat> { match o { Some(n) => Some(cap_u64(n)), None => None } }
 pub struct Provider;
 pub struct SigningKey { pub of: PrivateKeyDer }
@@ -263,6 +264,15 @@ def quic_closures(e):
     e.log('X11', 'closures / function paths handed to Option::map annotated by shape: VarInt cap x%d, Into::into x%d, Duration::from_millis x%d' % (k1, k2, k3))
 
 
+def config_link(e):
+    """X11: `.map(QuicConfig::transport_config)` eta-expanded with the contract its target carries; `.unwrap_or_default()` -> `.unwrap_or(TransportConfig::default())`"""
+    t = e.text
+    t, k1 = re.subn(r'\.map\(QuicConfig::transport_config\)', '.map(|q: &QuicConfig| -> (c: TransportConfig) ensures c.idle_ms@ == capped(q.max_idle_timeout_ms), c.keep_alive_ms@ == opt_nat(q.keep_alive_interval_ms), c.bidi@ == capped(q.max_concurrent_bidi_streams), c.uni@ == capped(q.max_concurrent_uni_streams) { q.transport_config() })', t)
+    t, k2 = re.subn(r'\.unwrap_or_default\(\)', '.unwrap_or(TransportConfig::default())', t)
+    e.text = t
+    e.log('X11', '`.map(QuicConfig::transport_config)` eta-expanded with its target\'s contract (x%d); `.unwrap_or_default()` spelled out (x%d)' % (k1, k2))
+
+
 def build(ctx):
     C = ctx
     t = P.HEADER.replace('use std::collections::HashMap;', 'use std::collections::HashMap;\nuse std::sync::Arc;') + P.STD_SPECS
@@ -278,8 +288,21 @@ def build(ctx):
               rewrites=[dict(rule='X5', pattern='quinn::TransportConfig', repl='TransportConfig', optional=True)], spec='''
     ensures
         r.idle_ms@ == capped(self.max_idle_timeout_ms), // @OBL QuicConfig::transport_config::idle_timeout_is_the_configured_one [C09] the idle timeout quinn runs with is the configured number of milliseconds (capped at the largest value QUIC can express); none configured leaves quinn's default: this is the bound within which a silent loss of a peer is noticed
-        r.keep_alive_ms@ == (match self.keep_alive_interval_ms { Some(n) => Some(n as nat), None => None::<nat> }), // @OBL QuicConfig::transport_config::keep_alive_is_the_configured_one [C09] keep-alive packets are sent at the configured interval
+        r.keep_alive_ms@ == opt_nat(self.keep_alive_interval_ms), // @OBL QuicConfig::transport_config::keep_alive_is_the_configured_one [C09] keep-alive packets are sent at the configured interval
         r.bidi@ == capped(self.max_concurrent_bidi_streams) && r.uni@ == capped(self.max_concurrent_uni_streams), // @OBL QuicConfig::transport_config::stream_limits_are_the_configured_ones [C12,C06] a remote peer may keep as many streams open as configured, no more
+''')
+    t += '}\n'
+    t += '''
+// crate::Config: the one field this unit is about (the other fields play no part in the transport configuration)
+pub struct Config { pub quic: Option<QuicConfig> }
+impl Config {
+'''
+    t += C.fn(CFG, 'impl Config :: fn transport_config', 'Config::transport_config', ['C09'], ret='r', transforms=[config_link],
+              rewrites=[dict(rule='X5', pattern='quinn::TransportConfig', repl='TransportConfig', optional=True)], spec='''
+    ensures
+        self.quic is Some ==> r.idle_ms@ == capped(self.quic->Some_0.max_idle_timeout_ms) && r.keep_alive_ms@ == opt_nat(self.quic->Some_0.keep_alive_interval_ms)
+            && r.bidi@ == capped(self.quic->Some_0.max_concurrent_bidi_streams) && r.uni@ == capped(self.quic->Some_0.max_concurrent_uni_streams), // @OBL Config::transport_config::is_the_quic_sections [C09] the transport configuration of a network is the one its `quic` configuration section describes
+        self.quic is None ==> r.idle_ms@ is None && r.keep_alive_ms@ is None && r.bidi@ is None && r.uni@ is None, // @OBL Config::transport_config::defaults_without_a_quic_section [C09] and quinn's defaults when there is none
 ''')
     t += '}\n'
     t += C.item(CFG, 'struct EndpointConfigBuilder', derives=False)
